@@ -369,3 +369,81 @@ Proof.
   rewrite (nth_map_lt f (combine l1 l2) i dc (da, db)) by (rewrite combine_length; lia).
   rewrite combine_nth_lt by assumption. reflexivity.
 Qed.
+
+Lemma bget_bor n A B i j : bwf n A -> bwf n B -> i < n -> j < n ->
+  bget (bor A B) i j = bget A i j || bget B i j.
+Proof.
+  intros HA HB Hi Hj. unfold bget, bor.
+  rewrite (nth_map_combine _ A B i [] [] []) by (rewrite ?(proj1 HA), ?(proj1 HB); exact Hi).
+  cbn [fst snd].
+  rewrite (nth_map_combine _ (nth i A []) (nth i B []) j false false false)
+    by (rewrite ?(bwf_row n A i HA Hi), ?(bwf_row n B i HB Hi); exact Hj).
+  reflexivity.
+Qed.
+
+Lemma ball_bget n B i j : bwf n B -> ball B = true -> i < n -> j < n -> bget B i j = true.
+Proof.
+  intros HB H Hi Hj. unfold ball in H. rewrite forallb_forall in H.
+  assert (Hin : In (nth i B []) B) by (apply nth_In; rewrite (proj1 HB); exact Hi).
+  specialize (H _ Hin). rewrite forallb_forall in H. unfold bget. apply H.
+  apply nth_In. rewrite (bwf_row n B i HB Hi). exact Hj.
+Qed.
+
+(* a walk in the lazy graph (I or G) shortens to a walk in G *)
+Lemma walk_lazy n G k : bwf n G -> forall i j, i < n ->
+  walk (bor (bident n) G) k i j -> exists a, a <= k /\ walk G a i j.
+Proof.
+  intros HG.
+  assert (HH : bwf n (bor (bident n) G)) by (apply bwf_bor; [apply bwf_bident|exact HG]).
+  induction k as [|k IH]; intros i j Hi Hw.
+  - cbn [walk] in Hw. destruct Hw as [E _]. exists 0. split; [lia|].
+    cbn [walk]. split; [exact E|rewrite (proj1 HG); exact Hi].
+  - cbn [walk] in Hw. destruct Hw as [m [Hm [Hb Hw]]]. rewrite (proj1 HH) in Hm.
+    destruct (IH m j Hm Hw) as [a [Ha Hwa]].
+    rewrite (bget_bor n (bident n) G i m (bwf_bident n) HG Hi Hm) in Hb.
+    rewrite (bget_bident n i m Hi Hm) in Hb.
+    apply orb_true_iff in Hb. destruct Hb as [Hb|Hb].
+    + apply Nat.eqb_eq in Hb. subst m. exists a. split; [lia|exact Hwa].
+    + exists (S a). split; [lia|]. cbn [walk]. exists m. rewrite (proj1 HG).
+      split; [exact Hm|]. split; assumption.
+Qed.
+
+Lemma walk_app G a b i v j : walk G a i v -> walk G b v j -> walk G (a + b) i j.
+Proof.
+  revert i. induction a as [|a IH]; intros i Ha Hb.
+  - cbn [walk] in Ha. destruct Ha as [E _]. subst v. exact Hb.
+  - cbn [walk] in Ha. destruct Ha as [m [Hm [Hbm Hw]]].
+    cbn [plus walk]. exists m. split; [exact Hm|]. split; [exact Hbm|].
+    apply IH; assumption.
+Qed.
+
+Lemma walk_loop G v c : v < length G -> bget G v v = true -> walk G c v v.
+Proof.
+  intros Hv Hl. induction c as [|c IH]; cbn [walk].
+  - split; [reflexivity|exact Hv].
+  - exists v. split; [exact Hv|]. split; [exact Hl|exact IH].
+Qed.
+
+Lemma complete_with_loop n G v : bwf n G -> graph_connected G = true -> v < n -> bget G v v = true ->
+  forall k, 2 * (n - 1) <= k -> forall i j, i < n -> j < n -> walk G k i j.
+Proof.
+  intros HG Hc Hv Hl k Hk i j Hi Hj.
+  unfold graph_connected in Hc. rewrite (proj1 HG) in Hc.
+  assert (HH : bwf n (bor (bident n) G)) by (apply bwf_bor; [apply bwf_bident|exact HG]).
+  assert (HP : bwf n (bpow (bor (bident n) G) (n - 1))) by (apply bwf_bpow; exact HH).
+  assert (Hreach : forall x y, x < n -> y < n -> exists a, a <= n - 1 /\ walk G a x y).
+  { intros x y Hx Hy. apply (walk_lazy n G (n - 1) HG x y Hx).
+    apply (bpow_walk n _ (n - 1) x y HH Hx Hy).
+    apply (ball_bget n); assumption. }
+  destruct (Hreach i v Hi Hv) as [a [Ha Hwa]].
+  destruct (Hreach v j Hv Hj) as [b [Hb Hwb]].
+  replace k with (a + ((k - a - b) + b)) by lia.
+  apply (walk_app G a _ i v j Hwa).
+  apply (walk_app G _ b v v j); [|exact Hwb].
+  apply walk_loop; [rewrite (proj1 HG); exact Hv|exact Hl].
+Qed.
+Lemma wexp_ge n : 1 <= n -> 2 * (n - 1) <= wexp n.
+Proof.
+  intros _. unfold wexp. generalize (n - 1). intros m.
+  destruct m as [|[|m]]; [lia|lia|nia].
+Qed.
